@@ -117,7 +117,7 @@ def chain(name, units, **kw):
     args = dict(params=dict(history=[u.name for u in units]), min_obligations=sum(u.min_obligations for u in units),
                 timeout_s=sum(u.timeout_s for u in units), maxpaths=mp, setup=setups[0] if setups else None,
                 query_timeout_ms=max(u.query_timeout_ms for u in units), expect_paths=exp,
-                catch=units[0].catch)
+                catch=units[0].catch, stretch=all(u.stretch for u in units))
     args.update(kw)
     return Unit(name, body, **args)
 
